@@ -126,6 +126,8 @@ def run(cx, tier='quick'):
     cg = CallGraph(cx)
     ht = HashTypes(cx)
     n_hash_defs = 0
+    import collections
+    seen_iter = collections.Counter()
     for f in cx.crate.fns:
         fw = cx.fw(f)
         for d in fw.defs:
@@ -137,12 +139,14 @@ def run(cx, tier='quick'):
                 info = analyse_iter(ev.entry['iter'])
                 c = ht.expr_class(info.base, ev.scope, fw)
                 if c == 'map':
+                    seen_iter[id(f)] += 1
                     decide_iteration(cx, cg, ht, rep, f, fw, ev, 'for %s in %s' % (pat_s(ev.entry['pat']), es(ev.entry['iter'])), None)
                 else:
                     rep.ok('DET-HASH', '%s|for over non-hash `%s`' % (f.qname, es(info.base)[:60]))
             elif ev.kind == 'mcall' and ev.method in ITER_METHODS:
                 c = ht.expr_class(ev.recv, ev.scope, fw)
                 if c == 'map':
+                    seen_iter[id(f)] += 1
                     # `for x in m.keys()` is already reported through the for-loop
                     decide_iteration(cx, cg, ht, rep, f, fw, ev, '%s.%s()' % (es(ev.recv), ev.method), ev)
             elif ev.kind == 'macro' and ev.name in ('format', 'write', 'writeln', 'println', 'eprintln', 'print', 'panic', 'format_args'):
@@ -176,12 +180,60 @@ def run(cx, tier='quick'):
                     if any(p == e or p.startswith(e + '::') for e in ENV_PREFIXES if e not in ('std::sync', 'std::path')):
                         rep.bad('DET-ENV', '::'.join(m.path), 'use=%s' % p, 'imports an environment-dependent API `%s`' % p, m.file, it['l'])
         rep.ok('DET-STATE', 'module %s: %d items scanned' % ('::'.join(m.path) or 'crate', len(m.items)))
+    check_mir(cx, rep, seen_iter)
     rep.floor('DET-HASH', 100, '(≈180 loops today)')
     rep.floor('DET-STATE', 50)
     selftest(rep)
     rep.assumptions += ['syn/quote/proc-macro2/rustc are deterministic', 'BTreeMap/Vec/Punctuated iterate in key/insertion order']
     rep.not_decided += ['nondeterminism inside dependencies']
     return rep
+
+
+def check_mir(cx, rep, seen_iter):
+    """MIR-HASH / MIR-ENV: the same two questions asked of rustc's type-resolved MIR (tools/mirfacts; nothing is run): every call whose
+    resolved callee iterates a std HashMap/HashSet must be one the syntax-level census classified (so it was decided above), and
+    no call resolves into a time/env/fs/process/thread/net/random/lock API."""
+    import collections
+    from .. import mir
+    rep.explanation.append(
+        'MIR-HASH/MIR-ENV: cross-check against rustc: in the MIR of every function and closure of the crate (all features) each Call whose '
+        'type-resolved callee is HashMap/HashSet::{iter,keys,values,into_iter,drain,retain,..} or their IntoIterator impls must lie in '
+        'a function where the syntax census found at least as many hash iterations (type inference and aliases cannot hide one); no '
+        'callee resolves into std::time/env/fs/process/thread/net, RandomState, atomics, locks or RefCell.')
+    rows = mir.facts(cx.repo)
+    idx = mir.FnIndex(cx)
+    H = collections.defaultdict(list)
+    ncalls = 0
+    for r in rows:
+        if r['k'] != 'call':
+            continue
+        ncalls += 1
+        h = mir.hash_iter(r)
+        if h and not r['exp']:
+            f = idx.find(r['file'], r['line'])
+            if f is None:
+                rep.bad('MIR-HASH', r['caller'], 'unmapped', 'hash iteration `%s` at %s:%d lies in no function known to the syntax model' % (h, r['file'], r['line']), r['file'], r['line'])
+            else:
+                H[id(f)].append((f, r, h))
+        e = mir.env_call(r)
+        if e:
+            rep.bad('MIR-ENV', r['caller'], 'callee=%s' % r['callee'][:80], 'a call resolves into the environment-dependent / stateful API `%s`' % r['callee'], r['file'], r['line'])
+    for fid, lst in H.items():
+        f = lst[0][0]
+        if len(lst) > seen_iter[fid]:
+            rep.bad('MIR-HASH', f.qname, 'iterations>%d' % seen_iter[fid],
+                    'rustc resolves %d iteration(s) over a HashMap/HashSet in this function (lines %s: %s), the syntax census classified %d: an order-dependent iteration is hidden behind inference or an alias'
+                    % (len(lst), sorted(set(r['line'] for _, r, _ in lst)), sorted(set(h for _, _, h in lst)), seen_iter[fid]), f.file, lst[0][1]['line'])
+        else:
+            rep.ok('MIR-HASH', '%s|%d resolved hash iteration(s) <= %d classified' % (f.qname, len(lst), seen_iter[fid]))
+    rep.ok('MIR-HASH', 'crate|%d resolved calls scanned, %d iterate a hash container' % (ncalls, sum(len(v) for v in H.values())))
+    rep.ok('MIR-ENV', 'crate|%d resolved calls scanned, none into time/env/fs/process/thread/net/random/lock APIs' % ncalls)
+    if ncalls < 5000:
+        rep.broken.append('MIR fact file implausibly small (%d calls)' % ncalls)
+    hm = [r for r in rows if r['k'] == 'call' and 'HashMap' in r['callee']]
+    if not hm:
+        rep.broken.append('MIR positive control failed: no HashMap call at all resolved (the crate uses HashMap::get/insert)')
+    rep.extra['mir'] = {'calls': ncalls, 'hashmap_calls': collections.Counter(r['callee'].rsplit('::', 1)[-1] for r in hm)}
 
 
 def check_env_path(rep, f, p, line, cx):
